@@ -340,6 +340,8 @@ func (s *RecSc) Run(env *core.Env, st *core.Stats) (vs []core.Violation) {
 			pos += n
 		}
 		stop()
+		// what arrives after the stop function has returned is not part of the recording
+		out.Send([]byte{0x9F, 0x7F, 0x7F})
 		if s.Via == "file" {
 			f, err := smf.ReadFile(path)
 			os.Remove(path)
